@@ -1,6 +1,7 @@
 import SpVerif.Lemmas.RTree
 import SpVerif.Lemmas.RTreeIndex
 import SpVerif.Lemmas.RTreeArr
+import SpVerif.Lemmas.RTreeFill
 /-!
 # C03 — R-tree queries return exactly the intersecting / covered boxes
 
@@ -146,6 +147,25 @@ exactly the covered rows and the maybe-rows of `query` - so the exactness theore
 theorem C03_array_traversal (d : Nat) (q : NBox) (a : RTreeArr.Arr) (hps : 1 ≤ a.ps) (hold : a.Holds d) :
     RTreeArr.loop d q a a.len [0] ([], []) = query d q (build a.ps a.D a.rows) :=
   RTreeArr.loop_eq_query d q a hps hold
+
+/-- **the coded bottom-up pass fills `bounds_tree` with the boxes of the sub-trees**: the page loop (one leaf row per page, absent
+pages left NaN) and the layer loops of `_build_hilbert_rtree` as coded (children read from the array being filled, a NaN child
+ignored, nothing written when both are NaN, `start` / `stop` moved by `_parent`) leave in row `2^t − 1 + j` the box of the
+sub-tree at depth `t`, position `j` - for every number of rows, page size and dimension -/
+theorem C03_bottom_up_pass (d ps : Nat) (rows : List Row) (hps : 1 ≤ ps) :
+    ({ D := clog2 (numPages rows.length ps), ps := ps, bt := RTreeFill.fill d ps rows, rows := rows } : RTreeArr.Arr).Holds d :=
+  RTreeFill.fill_holds d ps rows hps
+
+/-- **end to end over the arrays**: the traversal as coded over the `bounds_tree` produced by the coded bottom-up pass returns the
+covered rows and the maybe-rows of the recursive query over `buildTree` - the tree of the exactness theorems -/
+theorem C03_array_index_end_to_end (d ps : Nat) (q : NBox) (rows : List Row) (hps : 1 ≤ ps) :
+    let a : RTreeArr.Arr := { D := clog2 (numPages rows.length ps), ps := ps, bt := RTreeFill.fill d ps rows, rows := rows }
+    RTreeArr.loop d q a a.len [0] ([], []) = query d q (buildTree ps rows) :=
+  RTreeArr.loop_eq_query d q _ hps (RTreeFill.fill_holds d ps rows hps)
+
+/-! non-vacuity: the coded pass on three rows, page size 1 (depth 2, one absent page): root, two inner nodes, three leaves, a NaN row -/
+example : RTreeFill.boundsTreeCoded 2 1 [(0, [0,0,1,1]), (1, [2,2,3,3]), (2, [0,2,1,5])] =
+    [some [0,0,3,5], some [0,0,3,3], some [0,2,1,5], some [0,0,1,1], some [2,2,3,3], some [0,2,1,5], none] := by decide
 
 /-! non-vacuity: three well-formed 2-d rows, page size 1 (depth 2), a query touching a row edge -/
 example : intersects 2 (buildTree 1 [(0, [0,0,1,1]), (1, [2,2,3,3]), (2, [0,2,1,5])]) [1,1,2,2] = [0, 1, 2] := by decide
